@@ -5,7 +5,9 @@
 mod big;
 mod bn;
 mod curves;
+mod ed;
 mod jj;
+mod secp;
 mod wei;
 
 use mzkh::Ctx;
@@ -48,6 +50,12 @@ fn main() {
         wei::run::<curves::Bn2>(&mut ctx);
         bn::run::<curves::Bn2>(&mut ctx);
         bn::run_g2_cofactor(&mut ctx);
+    }
+    if want("k256") {
+        secp::run(&mut ctx);
+    }
+    if want("ed") {
+        ed::run(&mut ctx);
     }
     ctx.finish();
 }
